@@ -460,8 +460,17 @@ func (vs *ValidatorStore) GetEndBlockUpdate(ctx *ValidatorContext, req types.Req
 				}
 			}
 
-			// delete validator who's power is 0
+			// delete a validator whose power is 0, but not while it can still be (or become) a member of
+			// tendermint's set (its removal needs the record's key) and not when it was staked again in this block
+			deletable := false
 			if validator.Power <= 0 {
+				current, cerr := vs.Get(validator.Address)
+				status, _ := ctx.EvidenceStore.GetValidatorStatus(validator.Address)
+				_, inLastCommit := vs.lastActive[string(validator.Address)]
+				deletable = cerr == nil && current.Power <= 0 && !inLastCommit &&
+					(status == nil || (!status.IsActive && height > status.Height+3))
+			}
+			if deletable {
 				vKey := append(vs.prefix, validator.Address.Bytes()...)
 				fmt.Println("Deleting :", validator.Address.String())
 				//TODO: validator delete will not properly delete the item because of state implementation
